@@ -103,6 +103,7 @@ static bool run(const Case &c, pbt::Ctx &ctx)
                 bool ok = mh::execute(c.m, *f, ctx, st);
                 for (auto &p : c.m.pieces)
                         if (p.len % 64 && p.place == guard::END) ctx.nontrivial = true;
+                if (c.m.giant == 3) { ctx.nontrivial = true; ctx.label("mh update whose 32-bit length sum wraps"); }
                 return ok;
         }
         if (c.kind == "aes") {
@@ -272,6 +273,16 @@ int main(int argc, char **argv)
                 using namespace pbt;
                 Case c;
                 c.seed = rng64(1, UINT64_MAX - 8);
+                // the first `wraps` cases of every worker: one multi-hash update of almost 2^32 bytes onto a carried partial block
+                // (families taken round-robin over the workers)
+                static long case_no = 0;
+                if (case_no < ctx.optnum("wraps", 0) && !g_mh.empty()) {
+                        size_t fi = (size_t) (ctx.optnum("worker", 0) + case_no * ctx.optnum("workers", 1)) % g_mh.size();
+                        case_no++;
+                        c.kind = "mh";
+                        c.m = mh::gen_case(g_mh[fi], 0, 0, 3);
+                        return c;
+                }
                 switch (weighted({ 3, 2, 6, 3, 2, 3 })) {
                 case 0: {
                         c.kind = "hash";
